@@ -5,7 +5,12 @@ package vault
 // Accessors for the verification harness (/verif); injected by -overlay only.
 
 import (
+	"context"
+	"time"
+
+	"github.com/openbao/openbao/v2/internal/helper/namespace"
 	"github.com/openbao/openbao/v2/internal/vault/barrier"
+	"github.com/openbao/openbao/sdk/v2/helper/jsonutil"
 )
 
 // VerifBarrier returns the root barrier of the core.
@@ -52,4 +57,19 @@ func VerifTrackedLeases(c *Core) (pending, nonexpiring, irrevocable []string, re
 	m.nonexpiring.Range(func(k, _ any) bool { nonexpiring = append(nonexpiring, k.(string)); return true })
 	m.irrevocable.Range(func(k, _ any) bool { irrevocable = append(irrevocable, k.(string)); return true })
 	return pending, nonexpiring, irrevocable, m.inRestoreMode()
+}
+
+// VerifStoredLease decodes the lease entry stored under a physical key
+// (sys/expire/id/...) through the root barrier.
+func VerifStoredLease(c *Core, physKey string) (issue, expire time.Time, irrevocable bool, renewable bool, ok bool) {
+	ent, err := c.barrier.Get(namespace.RootContext(context.Background()), physKey)
+	if err != nil || ent == nil {
+		return
+	}
+	le := new(leaseEntry)
+	if err := jsonutil.DecodeJSON(ent.Value, le); err != nil {
+		return
+	}
+	r, _ := le.renewable()
+	return le.IssueTime, le.ExpireTime, le.RevokeErr != "", r, true
 }
